@@ -525,6 +525,10 @@ def run(tier, replay=None):
             elif clause in ('not_localised', 'other_errors_reported'):
                 others = sorted(set('%s/%s' % (e['lvl'], e['code']) for e in rec['errors']))
                 sig['reported'] = others[:4]
+                extra = [e for e in rec['errors'] if e['segpos'] != rec['inj'].get('segpos')]
+                if clause == 'other_errors_reported' and rec['kind'] == 'MissingRequiredLoop' and extra and \
+                        all(e['lvl'] == 'seg' and e['code'] == '3' and e['seg'] == rec['inj']['seg'] for e in extra):
+                    sig['what'] = 'same_missing_loop_reported_again_at_a_later_segment'
             chk.violation(sig, '%s: fault %s at %s (%s): clause %s; verdict=%s exc=%s %s errors=%s sets=%s'
                           % (rec['map'], rec['kind'], {k: rec['inj'][k] for k in ('seg', 'segpos', 'ele', 'sub', 'value')}, 'local' if rec['local'] else 'structural', clause,
                              rec['verdict'], rec['exc'], rec['site'], [{k: e[k] for k in ('lvl', 'code', 'seg', 'segpos', 'ele', 'sub')} for e in rec['errors'][:4]], rec['sets']),
